@@ -308,7 +308,7 @@ def check(case):
 
 def explore(rec):
     quick = rec.tier == "quick"
-    rec.hyp("outlines", outline_case(), 6000 if quick else 120000)
+    rec.hyp("outlines", outline_case(), 12000 if quick else 200000)
 
 
 def required_labels(tier):
